@@ -1,9 +1,9 @@
 package props
 
 import (
-	"runtime"
 	"encoding/json"
 	"fmt"
+	"runtime"
 	"strings"
 	"sync"
 	"sync/atomic"
@@ -11,8 +11,10 @@ import (
 
 	res "github.com/jirenius/go-res"
 
+	nats "github.com/nats-io/nats.go"
 	"verif/harness/internal/core"
 	"verif/harness/internal/mon"
+	"verif/harness/internal/natsenv"
 	"verif/harness/internal/sched"
 	"verif/harness/internal/vconn"
 )
@@ -61,6 +63,8 @@ func init() {
 						Params: core.Params(c03Params{Kind: "multishutdown", Workers: w, Cycles: tierPick(tier, 150, 500)})})
 				}
 			}
+			bs = append(bs, core.Batch{Name: "listen-and-serve", TimeoutS: 300,
+				Params: core.Params(c03Params{Kind: "listen", Workers: 4, Cycles: tierPick(tier, 12, 60)})})
 			for _, g := range []string{"G1", "G2", "G3-token", "G3-reset", "G3-event", "G3-reply", "G4", "G5", "G6", "control"} {
 				for _, w := range []int{1, 3, 8} {
 					bs = append(bs, core.Batch{Name: fmt.Sprintf("directed-%s-w%d", g, w), TimeoutS: 300,
@@ -78,6 +82,10 @@ func c03Run(c *core.Ctx, b core.Batch) {
 	var p c03Params
 	json.Unmarshal(b.Params, &p)
 	rigInstall()
+	if p.Kind == "listen" {
+		c03Listen(c, p)
+		return
+	}
 	if p.Kind == "multishutdown" {
 		c03MultiShutdown(c, p)
 		return
@@ -520,6 +528,123 @@ func c03MultiShutdown(c *core.Ctx, p c03Params) {
 	}
 	s.shutdownAndCheck("final", p.Workers, nil)
 	c.Sample(map[string]interface{}{"scenario": "concurrent Shutdown calls", "workers": p.Workers, "cycles": p.Cycles})
+}
+
+// c03Listen: the same Service value goes through cycles of ListenAndServe on an
+// embedded NATS server. A cycle ends either with Shutdown (racing requests and
+// With calls) or with the connection being closed under the service (which the
+// library turns into a Shutdown): the blocked ListenAndServe call must return,
+// all workers must be gone and the service must be servable again.
+func c03Listen(c *core.Ctx, p c03Params) {
+	rigInstall()
+	ne, err := natsenv.Start()
+	if err != nil {
+		c.Inconclusive("nats: " + err.Error())
+		return
+	}
+	defer ne.Shutdown()
+	var executed int64
+	svc := res.NewService("svc")
+	svc.SetLogger(&cntLogger{})
+	svc.SetWorkerCount(p.Workers)
+	svc.Handle("m.$id", res.Access(res.AccessGranted), res.GetModel(func(r res.ModelRequest) {
+		atomic.AddInt64(&executed, 1)
+		r.Model(map[string]string{"id": r.PathParam("id")})
+	}))
+	for cy := 0; cy < p.Cycles; cy++ {
+		how := []string{"shutdown", "connection-closed", "shutdown"}[cy%3]
+		what := map[string]interface{}{"scenario": "ListenAndServe cycle", "cycle": cy, "ended_by": how}
+		served := make(chan struct{})
+		var once sync.Once
+		svc.SetOnServe(func(*res.Service) { once.Do(func() { close(served) }) })
+		ret := make(chan error, 1)
+		go func() { ret <- svc.ListenAndServe(ne.URL, nats.ReconnectWait(20*time.Millisecond)) }()
+		select {
+		case <-served:
+		case err := <-ret:
+			c.Violation("C03/listen-failed", fmt.Sprintf("ListenAndServe returned %v before serving (cycle %d)", err, cy), what)
+			return
+		case <-time.After(20 * time.Second):
+			c.Inconclusive("ListenAndServe did not start serving")
+			return
+		}
+		// traffic: requests over the server and With calls, still going on when the cycle ends
+		stop := make(chan struct{})
+		var wg sync.WaitGroup
+		var answered int64
+		for g := 0; g < 3; g++ {
+			wg.Add(1)
+			go func(g int) {
+				defer wg.Done()
+				for n := 0; ; n++ {
+					select {
+					case <-stop:
+						return
+					default:
+					}
+					if g == 0 {
+						if pn := try(func() { svc.With(fmt.Sprintf("svc.m.%d", n%5), func(res.Resource) { atomic.AddInt64(&executed, 1) }) }); pn != nil {
+							c.Violation("C03/panic:With", fmt.Sprintf("With panicked during a ListenAndServe cycle: %v", pn), what)
+						}
+						continue
+					}
+					if m, err := ne.GW.Request(fmt.Sprintf("get.svc.m.%d", n%7), nil, 50*time.Millisecond); err == nil && len(m.Data) > 0 {
+						atomic.AddInt64(&answered, 1)
+					}
+				}
+			}(g)
+		}
+		time.Sleep(time.Duration(1+cy%4) * time.Millisecond)
+		switch how {
+		case "shutdown":
+			var serr error
+			if pn := try(func() { serr = svc.Shutdown() }); pn != nil {
+				c.Violation("C03/panic:Shutdown:listen", fmt.Sprintf("Shutdown panicked: %v", pn), what)
+			} else if serr != nil {
+				c.Violation("C03/shutdown-error", "Shutdown of a service started with ListenAndServe returned: "+serr.Error(), what)
+			}
+		case "connection-closed":
+			if nc, ok := svc.Conn().(*nats.Conn); ok && nc != nil {
+				nc.Close()
+			}
+		}
+		select {
+		case <-ret:
+		case <-time.After(20 * time.Second):
+			close(stop)
+			c.Violation("C03/serve-did-not-return:listen:"+how, fmt.Sprintf("ListenAndServe did not return within 20 s after the cycle was ended by %s", how), what)
+			return
+		}
+		close(stop)
+		wg.Wait()
+		c.Eval(1)
+		c.Obs("listen_cycles", 1)
+		c.Obs("listen_answered_requests", atomic.LoadInt64(&answered))
+		// all workers gone, state stopped (servable again in the next cycle)
+		gone := false
+		for i := 0; i < 400; i++ {
+			if st, _, _, _ := svc.VerifState(); mon.CountGoroutines("go-res.(*Service).startWorker") == 0 && st == 0 {
+				gone = true
+				break
+			}
+			time.Sleep(5 * time.Millisecond)
+		}
+		if !gone {
+			st, qnil, queued, groups := svc.VerifState()
+			n := mon.CountGoroutines("go-res.(*Service).startWorker", "sync.(*Cond).Wait")
+			if n > 0 || st != 0 {
+				c.Violation("C03/not-stopped-after-cycle:"+how, fmt.Sprintf("2 s after ListenAndServe returned (%s): state=%d, %d workers parked, queue nil=%v queued=%d groups=%d", how, st, n, qnil, queued, groups), what)
+				return
+			}
+			c.Inconclusive("worker goroutines still present but not parked")
+			return
+		}
+		if svc.Conn() != nil {
+			c.Violation("C03/conn-not-cleared", "Conn() is not nil after the ListenAndServe cycle ended", what)
+		}
+		c.Distinct(fmt.Sprintf("listen/%s/%d", how, cy))
+	}
+	c.Sample(map[string]interface{}{"scenario": "ListenAndServe cycles on an embedded NATS server", "cycles": p.Cycles, "executed_callbacks": atomic.LoadInt64(&executed)})
 }
 
 func c03Directed(c *core.Ctx, p c03Params) {
